@@ -235,7 +235,7 @@ func c09dump() []c09g {
 }
 
 func c09waiting(state string) bool {
-	for _, p := range []string{"select", "chan receive", "chan send", "semacquire", "sync.", "sleep"} {
+	for _, p := range []string{"select", "chan receive", "chan send", "semacquire", "sync."} {
 		if strings.HasPrefix(state, p) {
 			return true
 		}
@@ -1002,6 +1002,7 @@ func runC09(args []string) error {
 	thorough := *tier == "thorough"
 	r := newRng(*seed)
 	sm := newSummary("C09")
+	sm.RefMismatches = []refMismatch{} // the driver iterates over it
 	tmpls := c09templates(r, thorough)
 
 	type meta struct {
